@@ -57,6 +57,7 @@ package sourceaddrs
 
 //@ func ResolveRelativeSource -> (r, err)
 //@   sweep
+//@   opt lemmas=local
 //@   replay resolveSource: a=asLocal(a).relPath, b=asLocal(b).relPath
 //@   requires pre.nonnil: a != nil && b != nil
 //@   requires pre.inv: srcInv(a) && srcInv(b)
@@ -71,6 +72,7 @@ package sourceaddrs
 
 //@ func ResolveRelativeFinalSource -> (r, err)
 //@   sweep
+//@   opt lemmas=local
 //@   replay resolveSource: a=asLocal(a).relPath, b=asLocal(b).relPath
 //@   requires pre.nonnil: a != nil && b != nil
 //@   requires pre.inv: finalInv(a) && finalInv(b)
